@@ -78,7 +78,7 @@ impl ForestEngine {
         ForestEngine {
             cfg: ForestCfg { property: "C06", extra: None, shape: shape_c06, enumerate_every: 150, claim: None, fork_check: false },
             level: "fault_enumeration",
-            quick_runs: 20_000,
+            quick_runs: 40_000,
             thorough_runs: 1_000_000,
             rule: "Every call is executed under catch_unwind on a clone of the store; a refusal (Err) must leave the read-back, the serialisation of every root and the liveness of every handle identical to the state before; unwinding is a violation except for the documented element-only accessors (not exercised on non-elements). Fault enumeration: at sampled states of seeded runs, every operation of the alphabet with every tuple of live nodes of all seven kinds. Non-trivial/distinct as for C04.",
         }
